@@ -18,12 +18,16 @@ func C12_writer_tail() {
 		k, err := w.Write([]byte{'d', 'a', 't', 'a'})
 		vAssert(vAnd(err == nil, k == 4), "wt.write_ok")
 	}
-	useClose := vChoose("close", 2) == 1
+	how := vChoose("close", 3) // Flush; Flush then Close; Close alone (the compressor has no Close method)
+	useClose := how == 1
 	var err error
-	if useClose {
+	switch how {
+	case 1:
 		w.Flush()
 		err = w.Close()
-	} else {
+	case 2:
+		err = w.Close()
+	default:
 		err = w.Flush()
 	}
 	out := comp.out
